@@ -33,7 +33,7 @@ PY = sys.executable
 
 TIERS = {
     "quick": {"budget": 25, "nb_cap": 10**6, "variants": 3, "hang": 900},
-    "thorough": {"budget": 900, "nb_cap": 10**6, "variants": 5, "hang": 4000},
+    "thorough": {"budget": 600, "nb_cap": 10**6, "variants": 4, "hang": 4000},
 }
 
 
